@@ -213,7 +213,7 @@ macro "str4_tail" : tactic => `(tactic| (
         have hWa := hv0 a (by simp [GC.atoms, GS.atoms])
         by_cases hea : a.isEqNe = true
         · obtain ⟨k1, k2, k3, k4, k5⟩ :=
-            mkAtomOKW_of hW E l1.name a s hn1 (hWa.1 hea) hx1 hp1 ⟨v2, hv1⟩ hxa hea hs
+            HK l1.name a s hn1 (hWa.1 hea) hx1 hp1 ⟨v2, hv1⟩ hxa hea hs
           have hsl : StrLeaf E (.single s) := by
             refine ⟨by rw [k1]; exact hx1, by rw [k1]; exact hp1, ⟨v2, by rw [k1]; exact hv1⟩, k2, a, k3, hxa, hea, k4, k5⟩
           have hslw : StrLeafW (fun n => n ∈ plainStringVars) W E (.single s) := by
@@ -269,9 +269,9 @@ macro "str4_tail" : tactic => `(tactic| (
 /-- **`_merge_single_markers` on two string leaves with any of the four operators** (values of the `not in` leaves
 pairwise comparable by containment): every outcome is a leaf of the fragment and is the exact
 conjunction / disjunction -/
-theorem str4Leaf_merge {W W' : String → Prop} (hW : ∀ v, W v → PlainValue v) {C : String → Prop}
-    (hC : ∀ u v, C u → C v → strIn u v = true ∨ strIn v u = true)
-    {E : Env} (l1 l2 : Leaf) (im : Bool) (r : M)
+theorem str4Leaf_mergeK {W W' : String → Prop} {E : Env} (HK : MkAtomOKW (fun n => n ∈ plainStringVars) W E)
+    {C : String → Prop} (hC : ∀ u v, C u → C v → strIn u v = true ∨ strIn v u = true)
+    (l1 l2 : Leaf) (im : Bool) (r : M)
     (hh1 : Str4LeafW W W' C E l1) (hh2 : Str4LeafW W W' C E l2) (h : mergeLeaves l1 l2 im = .ok (some r)) :
     M.Good (Str4LeafW W W' C E) r ∧
       M.sem (leafEval E) r = (if im then (leafEval E l1 && leafEval E l2) else (leafEval E l1 || leafEval E l2)) := by
@@ -352,6 +352,22 @@ theorem str4Leaf_congr {W W' : String → Prop} {C : String → Prop} {E : Env} 
     · simp only [Leaf.beq, Bool.and_eq_true, beq_iff_eq] at h
       obtain ⟨⟨⟨rfl, rfl⟩, rfl⟩, _⟩ := h
       rw [inOps_inj hop1 hop2]
+
+/-- the same with the constructor fact derived from plain values -/
+theorem str4Leaf_merge {W W' : String → Prop} (hW : ∀ v, W v → PlainValue v) {C : String → Prop}
+    (hC : ∀ u v, C u → C v → strIn u v = true ∨ strIn v u = true)
+    {E : Env} (l1 l2 : Leaf) (im : Bool) (r : M)
+    (hh1 : Str4LeafW W W' C E l1) (hh2 : Str4LeafW W W' C E l2) (h : mergeLeaves l1 l2 im = .ok (some r)) :
+    M.Good (Str4LeafW W W' C E) r ∧
+      M.sem (leafEval E) r = (if im then (leafEval E l1 && leafEval E l2) else (leafEval E l1 || leafEval E l2)) :=
+  str4Leaf_mergeK (mkAtomOKW_of hW E) hC l1 l2 im r hh1 hh2 h
+
+/-- `LeafSpec` on string leaves with all four operators, relative to the constructor fact on the `==` / `!=` values -/
+theorem leafSpec_str4K {W W' : String → Prop} {E : Env} (HK : MkAtomOKW (fun n => n ∈ plainStringVars) W E)
+    {C : String → Prop} (hC : ∀ u v, C u → C v → strIn u v = true ∨ strIn v u = true) :
+    LeafSpec (leafEval E) (Str4LeafW W W' C E) where
+  congr := fun a b ha hb h => str4Leaf_congr a b ha hb h
+  merge := fun l1 l2 im r h1 h2 h => str4Leaf_mergeK HK hC l1 l2 im r h1 h2 h
 
 /-- **`LeafSpec` on string leaves with all four operators**, the values of the `not in` leaves pairwise comparable
 by containment: no other hypothesis -/
